@@ -178,4 +178,37 @@ let check (case : Sexp.t) : unit =
          | _ -> raise (Parse_error "result")
        end
      | _ -> result id "ERR" "abs" "precondition arena is not a tree")
+  | List [Atom "case"; Atom id; Atom "shipped"; Atom name; Atom "unreadable"] ->
+    result id "ERR" "shipped" ("cannot read the shipped network " ^ name)
+  | List [Atom "case"; Atom id; Atom "shipped"; Atom name; _; List (Atom "layers" :: _); List [Atom "panic"; Atom msg]] ->
+    result id "VIOL" "no-panic" (Printf.sprintf "afftree_from_layers panicked on the shipped network %s: %s" name msg)
+  | List [Atom "case"; Atom id; Atom "shipped"; Atom name; Atom nin; List (Atom "layers" :: sls);
+          List [Atom "size"; Atom nodes; Atom terms]; List (Atom "pts" :: pts)] ->
+    (* real weights: evaluate() of the distilled tree against the exact-rational network, up to rounding *)
+    bump "shipped_networks"; bump "nontrivial";
+    bump_by "shipped_nodes" (int_of_string nodes); bump_by "shipped_terminals" (int_of_string terms);
+    let layers = List.map layer_of sls in
+    let n = int_of_string nin in
+    let consistent = (match layers_out_dim (nat_of_int n) layers with Some _ -> true | None -> false) in
+    if not consistent then result id "ERR" "shipped" "the shipped network is not dimension-consistent in the model"
+    else begin
+      let has_head = List.exists (function LArgmax | LClassChar _ -> true | _ -> false) layers in
+      let rel = qfrac (z_of_int 1) (pos_of_int 1000000000) in
+      let close a b = qleb (qabs (qcminus a b)) (qcmult rel (qcplus (qz (z_of_int 1)) (qabs b))) in
+      let ok = List.for_all (fun p ->
+          match (try Some (pt_of p) with Nonfinite -> None) with
+          | None -> bump "points_nonfinite"; true
+          | Some (x, out) ->
+            bump "shipped_points";
+            let w = net_eval sc_sixth_f64 layers x in
+            let good = (match out with
+                | PSome v -> List.length v = List.length w && (has_head || List.for_all2 close v w)
+                | _ -> false) in
+            if not good then
+              result id "VIOL" "evaluate" (Printf.sprintf "shipped network %s: x=%s evaluate=%s network=%s (relative tolerance 1e-9)" name
+                                             (string_of_vec x) (match out with PNone -> "none" | PPanic -> "panic" | PSome v -> string_of_vec v)
+                                             (string_of_vec w));
+            good) pts in
+      if ok then result id "OK" "shipped" ""
+    end
   | _ -> result "?" "ERR" "parse" "unrecognised case"
